@@ -339,6 +339,7 @@ func Check(env *core.Env, rep *core.Report) *core.Result {
 	var tableStates, tableTrans int64
 	modelCyclic := make([]bool, len(rrows))
 	badTotal := 0
+	badRow := map[int]bool{}
 	chunk := 5000
 	for off := 0; off < len(rrows); off += chunk {
 		end := off + chunk
@@ -371,6 +372,7 @@ func Check(env *core.Env, rep *core.Report) *core.Result {
 		}
 		for _, bi := range v.Bad {
 			rr := rrows[off+bi-1]
+			badRow[off+bi-1] = true
 			badTotal++
 			kind := "acyclic-rejected"
 			if !rr.Err {
@@ -383,9 +385,17 @@ func Check(env *core.Env, rep *core.Report) *core.Result {
 		samples.Add(map[string]interface{}{"kind": "random-row", "row": rrows[0]})
 	}
 	// binding self-test: a row with the verdict flipped must be flagged by TLC
+	// (taken from a row that TLC accepted: flipping a row that is already wrong could make it right)
 	selftest := map[string]interface{}{}
-	{
-		rr := rrows[0]
+	pick := -1
+	for i := range rrows {
+		if !badRow[i] {
+			pick = i
+			break
+		}
+	}
+	if pick >= 0 {
+		rr := rrows[pick]
 		rr.Err = !rr.Err
 		b, _ := json.Marshal(rr)
 		res := core.MustHold(env, core.TLCOpts{Module: "GraphTable", Config: "GraphTable.cfg", Workers: 1, Files: map[string][]byte{"rows.ndjson": append(b, '\n')}})
@@ -393,7 +403,7 @@ func Check(env *core.Env, rep *core.Report) *core.Result {
 		if len(ps) == 0 || !strings.Contains(ps[0], `"bad":[1]`) {
 			core.Broken("binding self-test: a row with a flipped verdict was not flagged by GraphTable.tla: %v", ps)
 		}
-		selftest["corruption"] = "err flag of the first random row flipped"
+		selftest["corruption"] = "err flag of the first accepted random row flipped"
 		selftest["flagged"] = true
 	}
 
